@@ -2733,20 +2733,24 @@ LEFT JOIN conversions ON {join_condition}{group_by}{order_clause}{limit_clause}
                     # Dependency-free expression metrics are already materialized
                     # in the inner query (when needed), so reuse the alias.
                     return metric_column(canon_ref)
+                # Substitute every dependency in ONE pass over the formula as written: an expression
+                # that was substituted (it may mention the name of another dependency, e.g. the
+                # denominator of a ratio that the formula also uses by itself) is never scanned again
+                replacements: dict[str, str] = {}
                 for dependency in dependencies:
                     dep_expr = build_time_comparison_base_expression(dependency, resolved_context, visited.copy())
                     if "." in dependency:
                         model_name, dep_name = dependency.split(".", 1)
-                        qualified_pattern = r"\b" + re.escape(f"{model_name}.{dep_name}") + r"\b"
-                        if re.search(qualified_pattern, formula):
-                            formula = re.sub(qualified_pattern, f"({dep_expr})", formula)
+                        qualified_name = f"{model_name}.{dep_name}"
+                        if re.search(r"\b" + re.escape(qualified_name) + r"\b", formula):
+                            replacements[qualified_name] = f"({dep_expr})"
                         else:
-                            unqualified_pattern = r"\b" + re.escape(dep_name) + r"\b"
-                            formula = re.sub(unqualified_pattern, f"({dep_expr})", formula)
+                            replacements.setdefault(dep_name, f"({dep_expr})")
                     else:
-                        dep_pattern = r"\b" + re.escape(dependency) + r"\b"
-                        formula = re.sub(dep_pattern, f"({dep_expr})", formula)
-                return formula
+                        replacements[dependency] = f"({dep_expr})"
+                names = sorted(replacements, key=lambda name: (-len(name), name))
+                pattern = r"\b(?:" + "|".join(re.escape(name) for name in names) + r")\b"
+                return re.sub(pattern, lambda match: replacements[match.group(0)], formula)
 
             if metric_obj.type == "ratio" and not metric_obj.offset_window:
                 if not metric_obj.numerator or not metric_obj.denominator:
